@@ -150,6 +150,18 @@ func gen(r *vc.Rand, thorough bool) (untimed, timed []job) {
 		add(mk(b, ttls, evs), "gen:history")
 	}
 
+	// --- 3b. key injectivity end to end: families of ids that share a long prefix and differ late, ids made of
+	// the key separators / the key prefixes themselves, ids equal up to case, trailing NUL, unicode normal form;
+	// three of them waiting at the same time on different nodes, every one must resolve to its own record, and
+	// removing one must not touch the others.  The same for node ids (GetNodeAddress keys).
+	for _, b := range backends {
+		for _, fam := range idFamilies(r, thorough) {
+			for _, cs := range collideCases(r, b, fam) {
+				add(cs, "gen:id-family")
+			}
+		}
+	}
+
 	// --- 4. excluded points: strings that are not valid UTF-8 (JSON replaces the bytes)
 	for _, b := range backends {
 		bad := rec{tid: "t\xff\xfe", mp: "\xc3(", sec: "ok", src: "node-0", host: "\x80"}
@@ -243,4 +255,99 @@ func gen(r *vc.Rand, thorough bool) (untimed, timed []job) {
 		i++
 	}
 	return untimed, timed
+}
+
+// family of three ids of length n that differ only at byte position pos
+func famAt(r *vc.Rand, n, pos int) []string {
+	base := make([]byte, n)
+	al := "abcdefghijklmnopqrstuvwxyz0123456789-"
+	for i := range base {
+		base[i] = al[r.Intn(len(al))]
+	}
+	if n > 12 {
+		copy(base, "server-udp-")
+	}
+	out := make([]string, 3)
+	for k := 0; k < 3; k++ {
+		x := append([]byte{}, base...)
+		x[pos] = "XYZ"[k]
+		out[k] = string(x)
+	}
+	return out
+}
+
+func idFamilies(r *vc.Rand, thorough bool) [][]string {
+	fams := [][]string{
+		{"", "\x00", "\x00\x00"},
+		{"t", "t\x00", "t "},
+		{"Tunnel-A", "tunnel-a", "TUNNEL-A"},
+		{"caf\u00e9", "cafe\u0301", "cafe"},                // NFC / NFD / stripped
+		{"\u212b", "\u00c5", "A\u030a"},                    // Angstrom sign / A-ring / decomposed
+		{"tunnox:tunnel_waiting:", "tunnox:tunnel_waiting:tunnox:tunnel_waiting:", "tunnox:node:"},
+		{":addr", "x:addr", "tunnox:node:x:addr"},
+		{"a:b", "a|b", "a:b:"},
+		{"a", "a:", ":a"},
+		{"|", "||", ":"},
+	}
+	lens := []int{1, 40, 106, 107, 128, 129, 140, 255, 1024}
+	poss := []int{0, 100, 106, 117, 128}
+	if thorough {
+		poss = []int{0, 100, 105, 106, 107, 110, 117, 127, 128, 130}
+	}
+	if thorough {
+		lens = []int{1, 2, 40, 105, 106, 107, 108, 109, 110, 120, 127, 128, 129, 130, 131, 139, 140, 255, 256, 1024, 4096}
+	} else if r.Bool() {
+		lens = append(lens, 4096)
+	}
+	for _, n := range lens {
+		seen := map[int]bool{}
+		for _, pos := range append(append([]int{}, poss...), n/2, n-2, n-1) {
+			if pos < 0 || pos >= n || seen[pos] {
+				continue
+			}
+			seen[pos] = true
+			fams = append(fams, famAt(r, n, pos))
+		}
+		// one id is a proper prefix of the next
+		if n > 3 {
+			f := famAt(r, n, n-1)
+			fams = append(fams, []string{f[0][:n-1], f[0], f[0] + "x"})
+		}
+	}
+	return fams
+}
+
+func collideCases(r *vc.Rand, b string, fam []string) []string {
+	recs := make([]rec, 3)
+	for k := range recs {
+		recs[k] = rec{tid: fam[k], mp: fmt.Sprintf("mapping-%d", k), sec: fmt.Sprintf("secret-%d", k), src: fmt.Sprintf("node-%d", k),
+			sc: int64(100 + k), tc: int64(200 + k), host: fmt.Sprintf("10.0.0.%d", k+1), port: 8000 + k}
+	}
+	p := r.Intn(3) // rotation: which node looks up whom
+	// all three waiting together; cross-node lookups; one ends, the others stay; a replayed id of the ended one
+	tun := []string{
+		fmtRec("reg", 0, recs[0]), fmtRec("reg", 1, recs[1]), look((1+p)%3, fam[0]), fmtRec("reg", 2, recs[2]),
+		look((2+p)%3, fam[0]), look((0+p)%3, fam[1]), look((1+p)%3, fam[2]),
+		rem(2, fam[1]), look(0, fam[0]), look(0, fam[1]), look(1, fam[2]),
+		rem(0, fam[2]), look(2, fam[0]), look(1, fam[1]), look(1, fam[2]),
+		fmtRec("reg", 1, recs[2]), look(0, fam[1]), look(2, fam[2]), look(1, fam[0]),
+	}
+	// the same through the session layer: three bridges on three nodes, the second one ends
+	ses := []string{
+		fmtRec("open", 0, recs[0]), fmtRec("open", 1, recs[1]), fmtRec("open", 2, recs[2]),
+		look(1, fam[0]), look(2, fam[1]), look(0, fam[2]), end(1, fam[1]), look(2, fam[0]), look(0, fam[1]), look(1, fam[2]),
+	}
+	// node ids
+	adr := []string{}
+	for k := 0; k < 3; k++ {
+		adr = append(adr, fmt.Sprintf("rega:%d:%s:%s", k, hx(fam[k]), hx(fmt.Sprintf("10.1.0.%d:7000", k+1))))
+	}
+	for k := 0; k < 3; k++ {
+		adr = append(adr, fmt.Sprintf("geta:%d:%s", (k+1+p)%3, hx(fam[k])))
+	}
+	adr = append(adr, fmt.Sprintf("rega:%d:%s:%s", 2, hx(fam[0]), hx("10.9.9.9:1")), fmt.Sprintf("geta:0:%s", hx(fam[0])),
+		fmt.Sprintf("geta:0:%s", hx(fam[1])), fmt.Sprintf("geta:1:%s", hx(fam[2])),
+		// ids and node ids never meet
+		fmtRec("reg", 0, recs[0]), fmt.Sprintf("geta:1:%s", hx(fam[0])), look(2, fam[0]))
+	return []string{mk(b, "0,0,0", tun), mk(b, "0,0,0", ses), mk(b, "0,0,0", adr)}
 }
